@@ -170,7 +170,12 @@ Definition step (c : cfg) (a : attr) (o : op) : option attr :=
       else Some {| frame := frame a; dat := Own rows; shape_len := shape_len a;
                    id2index := id2index a; ts := ts a |}
   | OverwriteIds new => mk_attr (ids new) (vals new) false false
-  | SetAttr rows => mk_attr (ids (frame a)) rows false false
+  | SetAttr rows =>
+      (* are_same_lengths() reads len(attribute.data) first *)
+      match data_view a with
+      | None => None
+      | Some _ => mk_attr (ids (frame a)) rows false false
+      end
   end.
 
 Definition step_total (c : cfg) (a : attr) (o : op) : attr :=
